@@ -379,7 +379,9 @@ def for_in(
     """
 
     def factory(_: abc.SchedulerBase) -> Observable[_T2]:
-        mapped: Iterable[Observable[_T2]] = map(mapper, values)
+        # a generator: a StopIteration raised by the mapper is an error (PEP 479),
+        # not the end of the values
+        mapped: Iterable[Observable[_T2]] = (mapper(value) for value in values)
         return concat_with_iterable(mapped)
 
     return defer(factory)
